@@ -113,9 +113,114 @@ func runC19(c *eng.Ctx) {
 	if !ok {
 		return
 	}
+	if ren := c19ResolveRenames(c, sh); len(ren) > 0 {
+		c.Extra["shell_renamed"] = ren
+	}
 	c19AllFuncs, c19Baseline = sh.funcs, c.P.Baseline
 	c19R1(r1, sh)
 	c19R2(c, r2, sh)
+}
+
+// c19ResolveRenames maps a function of the reference tree that no longer exists to the new function that took its
+// place: the one new function whose multiset of external commands is closest to the recorded one (at least 60%
+// overlap, strictly better than every other new function). The syntax tree is then rewritten to the reference name
+// (definition and every call), so that the rules address the function by the name they know.
+func c19ResolveRenames(c *eng.Ctx, sh *c19sh) map[string]string {
+	if c.P.Baseline == nil {
+		return nil
+	}
+	ref := map[string][]string{}
+	for l := range c.P.Baseline {
+		if f := strings.Split(l, "\t"); len(f) == 3 && f[0] == "shsig" {
+			if f[2] == "" {
+				ref[f[1]] = nil
+			} else {
+				ref[f[1]] = strings.Split(f[2], ",")
+			}
+		}
+	}
+	all := map[string]*eng.ShCmd{}
+	for n, f := range sh.funcs {
+		all[n] = f
+	}
+	var missing, fresh []string
+	for n := range ref {
+		if sh.funcs[n] == nil {
+			missing = append(missing, n)
+		}
+	}
+	for n := range sh.funcs {
+		if !c.P.Baseline["sh:"+n] {
+			fresh = append(fresh, n)
+		}
+	}
+	sort.Strings(missing)
+	sort.Strings(fresh)
+	overlap := func(a, b []string) float64 {
+		cnt := map[string]int{}
+		for _, x := range a {
+			cnt[x]++
+		}
+		inter := 0
+		for _, x := range b {
+			if cnt[x] > 0 {
+				cnt[x]--
+				inter++
+			}
+		}
+		if u := len(a) + len(b) - inter; u > 0 {
+			return float64(inter) / float64(u)
+		}
+		return 1
+	}
+	out := map[string]string{}
+	taken := map[string]bool{}
+	for _, old := range missing {
+		best, second, pick := 0.0, 0.0, ""
+		for _, n := range fresh {
+			if taken[n] {
+				continue
+			}
+			s := overlap(ref[old], eng.ShFingerprint(all[n], all))
+			if s > best {
+				best, second, pick = s, best, n
+			} else if s > second {
+				second = s
+			}
+		}
+		if pick != "" && best >= 0.6 && best > second {
+			out[old] = pick
+			taken[pick] = true
+		}
+	}
+	if len(out) == 0 {
+		return nil
+	}
+	back := map[string]string{}
+	for old, n := range out {
+		back[n] = old
+		sh.funcs[old], sh.where[old] = sh.funcs[n], sh.where[n]
+		delete(sh.funcs, n)
+		delete(sh.where, n)
+	}
+	for _, f := range sh.files {
+		for i, n := range f.Order {
+			if old := back[n]; old != "" {
+				f.Order[i] = old
+				f.Funcs[old] = f.Funcs[n]
+				delete(f.Funcs, n)
+			}
+		}
+		eng.ShWalk(f.List, "", func(x *eng.ShCmd, _ string) {
+			if old := back[x.Name]; old != "" && x.Func != nil {
+				x.Name = old
+			}
+			if old := back[x.CmdName()]; old != "" {
+				x.Words[0] = &eng.ShWord{Pos: x.Words[0].Pos, Parts: []*eng.ShPart{{Kind: eng.ShLit, Pos: x.Words[0].Pos, Text: old}}}
+			}
+		})
+	}
+	return out
 }
 
 // ------------------------------------------------------------------------------------------ R1: taint
@@ -1345,7 +1450,22 @@ func c19Norm(w *eng.ShWord, sel map[string]string) string {
 func c19CheckTable(c *eng.Ctx, r *eng.RuleCtx, f *eng.ShCmd) {
 	tb := &c19table{vals: map[string][]symVal{}, names: map[string][]string{}, pos: map[string]token.Pos{}, sels: map[int]string{}}
 	// the binding name is assigned by hook::run from `.binding` of the selected context (obligation of c19CheckRun)
-	tb.collect(shFuncBody(f), map[string]symVal{c19Binding: {{expr: "${.binding}"}}})
+	env := map[string]symVal{c19Binding: {{expr: "${.binding}"}}}
+	// arguments of the producer at its call in hook::run: a positional parameter that receives the binding name
+	// (again an obligation of c19CheckRun: the variable is assigned before the call) is named by that field too
+	if run := c19AllFuncs[c19Run]; run != nil && run.Func != nil {
+		eng.ShWalk(&eng.ShList{Items: []*eng.ShAndOr{{Pipes: []*eng.ShPipe{{Cmds: []*eng.ShCmd{run.Func}}}}}}, c19Run, func(x *eng.ShCmd, _ string) {
+			if x.CmdName() != c19Producer {
+				return
+			}
+			for i, w := range x.Words[1:] {
+				if v, ok := shSoleVar(w); ok && v == c19Binding {
+					env[strconv.Itoa(i+1)] = symVal{{expr: "${.binding}"}}
+				}
+			}
+		})
+	}
+	tb.collect(shFuncBody(f), env)
 	for i, p := range tb.probs {
 		r.Unknown(c19Producer+": structure", tb.ppos[i], "the producer contains a statement the table extraction does not understand (fail closed): "+p)
 	}
@@ -1518,7 +1638,7 @@ func c19CheckRun(r *eng.RuleCtx, sh *c19sh, f *eng.ShCmd, mode string) {
 				}
 			case "assign":
 				for k, name := range ev.Names {
-					if pc, _ := soleSub(ev.Raw[k]); pc != nil && pc.CmdName() == c19Producer && len(pc.Words) == 1 {
+					if pc, _ := soleSub(ev.Raw[k]); pc != nil && pc.CmdName() == c19Producer {
 						if _, seen := idx["producer"]; !seen {
 							idx["producer"] = i
 						}
@@ -1558,7 +1678,10 @@ func c19CheckRun(r *eng.RuleCtx, sh *c19sh, f *eng.ShCmd, mode string) {
 	}
 	prod := "$(" + c19Producer + ")"
 	okMain, dMain := false, "the list passed to the runner is "+runnerArg.String()
-	if len(runnerArg) == 2 && runnerArg[0].expr == prod && runnerArg[1].expr == "" && strings.HasSuffix(runnerArg[1].lit, "__main__") {
+	isProd := func(e string) bool {
+		return e == prod || strings.HasPrefix(e, "$("+c19Producer+" ") && strings.HasSuffix(e, ")")
+	}
+	if len(runnerArg) == 2 && isProd(runnerArg[0].expr) && runnerArg[1].expr == "" && strings.HasSuffix(runnerArg[1].lit, "__main__") {
 		sep := strings.TrimSuffix(runnerArg[1].lit, "__main__")
 		switch {
 		case mode == "lines" && sep == "\n", mode == "words" && sep != "" && strings.Trim(sep, " \t\n") == "":
